@@ -15,6 +15,21 @@ CHECKS = {
     ),
 }
 
+CHECKS["C01"] = dict(
+    category="model_checking",
+    text="spec/WowmWire.tla - the wire meaning of a wowm container as an explicit state machine (one action per member: emit primitive/enum/flag, take if/else-if/else arm, enter/leave struct, array begin/next/end, optional tail, built-in types from WowmTypes.tla) - is run by TLC over every message of the corpus as parsed by an independent front-end (all expansions, protocol versions, directions; ~600k states quick). Every terminal behaviour (a canonical encoding with its header) is replayed into the real public readers/writers (opcode enums), checking variant, exact consumption, byte-identical re-encoding and a second decode/encode cycle; compressed payloads are compared after inflation. Coverage is every control path of every definition within the stated bounds (array lengths 0..2/3, later array elements deterministic, values by profile rotation), not every value.",
+    design_ref="DESIGN.md section 4.2, 5 C01",
+    note="Trusted: tools/wowm_front.py + lower.py (syntactic), the TLA+ transcription of lang-spec.md/types/*.md, TLC, harness glue for zlib/size field. Known findings (genuine defects that cannot be repaired without editing golden tests, or not attempted) are listed in known_findings.jsonl and printed as KNOWN-FINDING lines.",
+    technique="TLA+ wire-walker spec explored with TLC per corpus message; spec->impl replay of every behaviour into the real codecs",
+)
+CHECKS["C20"] = dict(
+    category="model_checking",
+    text="spec/Geometry.tla (exact integer model of the rotated-box / circle / distance definition: Pythagorean-triple yaws, probe walks around every face, edge and corner, all 949 table triggers) model checked by TLC with 11 invariants (FrameInverts, RotationPreservesDist2, CoRotationInvariant, ...); every state is replayed into is_within_square, is_within_distance, distance_between, distance_2d, AreaTrigger::contains (3 expansions) and verify_trigger incl. wrong-map and unknown-id variants; quick 160k states / records, thorough 3.8M.",
+    design_ref="DESIGN.md section 5 C20, notes/C20.md",
+    note="Trusted: the reading of the definition (box frame = translate, rotate by -yaw), harness yaw = atan2 and placement of table offsets (inverse map), probe margins >= 1/32 yard so float rounding cannot flip a verdict (float accuracy itself is not claimed), the table-text parser.",
+    technique="TLA+ spec model-checked with TLC; every explored state replayed into the real geometry/trigger functions",
+)
+
 NOT_YET = {}
 
 def main():
